@@ -683,7 +683,7 @@ func fexec() {
 				fmt.Fprintln(os.Stderr, "bad filter case:", e)
 				os.Exit(2)
 			}
-			out := abs{"spec": c.Spec, "data": c.Data, "pan": false}
+			out := abs{"ev": "cell", "spec": c.Spec, "data": c.Data, "pan": false}
 			nspec := nested(c.Spec).(map[string]any)
 			dspec := map[string]any{}
 			dotted(c.Spec, "", dspec)
@@ -821,7 +821,7 @@ func nodes() {
 		gen.Array(nil), gen.Object{}, gen.Object{"a": gen.Int(1)}, gen.Object{"n": nil}, gen.Object(nil), gen.Array{gen.Array{}, gen.Object{}}}
 	gen.Sort = true
 	for _, n := range list {
-		out := abs{"g": fmt.Sprintf("%T", n), "v": proj(n), "pan": false}
+		out := abs{"ev": "node", "g": fmt.Sprintf("%T", n), "v": proj(n), "pan": false, "empty": false, "str": "", "parsed": false, "back": abs{"t": "null"}}
 		func() {
 			defer func() {
 				if r := recover(); r != nil {
